@@ -6,6 +6,33 @@ HERE = os.path.dirname(os.path.dirname(os.path.abspath(__file__)))
 
 # id -> (technique, level text, level note, design section)
 CHECKS = {
+    "C03": ("proptest stateful histories (vec of ops + interpreter) against an incremental strict chunk decoder + exhaustive small grid",
+            "every call of a generated write history is fed to a reference decoder; invariant checked after every step; the (input, output, finish-output) grid is enumerated completely for small sizes",
+            "trusted: harness strict chunk decoder; both public APIs (Flow<SendBody>, Call<WithBody>)"),
+    "C04": ("proptest stateful histories against a reference counter model + exhaustive small-scope histories",
+            "three operations (write, direct-write report, overshoot) interleaved at random with boundary-aimed lengths; a reference counter decides every result; N<=4 x all 4-op histories enumerated",
+            "trusted: 10-line counter model; both public APIs"),
+    "C05": ("proptest generated heads x every prefix length; exact-parse oracle from the generator's structure; known finding by computed signature",
+            "every strict prefix of every generated head (<= 600 bytes) is offered to the parser, a Call and a Flow; the full head must parse back to exactly the generated status/version/fields",
+            "trusted: harness head builder; HeaderMap order is compared per name"),
+    "C06": ("exhaustive enumeration of the framing decision table (2.1M cells) + proptest decorated heads; table oracle from RFC 9112 6.3 as worded in the property",
+            "the whole (method, status, version, Content-Length class, Transfer-Encoding class) table is enumerated on both APIs; cells the statement leaves open are explicit don't-cares",
+            "trusted: 25-line framing table; Call body mode identified by a probe read"),
+    "C07": ("bounded-exhaustive enumeration (all cut sets of short codings; all single/double structural cuts of the small-scope grammar) + proptest random codings/schedules; round-trip against the encoder's ground truth",
+            "small-scope hypothesis: every arrival composition of every coding up to 16 (19) bytes and every pair of structural cuts of the stated grammar, under 27 buffer/boundary-stop modes; random beyond",
+            "trusted: harness chunk encoder (ground truth: payload, chunk map, boundaries)"),
+    "C08": ("proptest read histories against a reference counter + exhaustive small-scope schedules",
+            "(arrival, buffer) histories with windows reaching into a following response; every read is decided by min(window, space, remaining)",
+            "trusted: counter model; bodies > 80000 bytes only partially materialised"),
+    "C15": ("exhaustive enumeration of the redirect method table (3600 cells)",
+            "all 9 methods x all 100 3xx statuses x both policies x body/no body; complete for the stated domain",
+            "trusted: the table as worded in the property"),
+    "C17": ("exhaustive enumeration of the request-validity table (28620 cells, both APIs) + proptest near-valid requests",
+            "complete over the stated configuration menu; random stage balances accepted and rejected requests",
+            "trusted: validity table as worded in the property; strict request head parser"),
+    "C20": ("proptest generated request/response heads x limits {0,1,4,128} x every prefix length; exact-parse oracle",
+            "every strict prefix of every generated head, for all three public parsers, field counts aimed at N and N+1",
+            "trusted: harness head builder"),
     "C18": ("exhaustive enumeration of n + proptest random large n; round-trip through a strict reference chunk decoder",
             "every output length 0..=30808 (both framings) is enumerated completely, larger n sampled: the formula and the writer are tied together by performing the write and decoding it",
             "trusted: harness strict chunk decoder; public Flow API only"),
